@@ -85,6 +85,7 @@ type FnCtx struct {
 	modBusy  map[*ssa.Function]bool
 	funDefs  []string
 	cloFrames map[ssa.Value]*Frame
+	ground   map[string]bool
 }
 
 type retInfo struct {
@@ -453,9 +454,20 @@ func (fc *FnCtx) embFn(st types.Type, f int) string {
 	if _, ok := fc.declared[n]; !ok {
 		fc.declareFun(n, "(Int) Int")
 		fc.declareFun(n+"!inv", "(Int) Int")
-		fc.define(fmt.Sprintf("(forall ((r Int)) (! (and (= (%s (%s r)) r) (=> (not (= r 0)) (< (%s r) 0))) :pattern ((%s r))))", sym(n+"!inv"), sym(n), sym(n), sym(n)))
 	}
 	return n
+}
+
+// embRef builds the ref of the struct/array embedded as field f of obj, with its ground axioms.
+func (fc *FnCtx) embRef(st types.Type, f int, obj string) string {
+	n := fc.embFn(st, f)
+	t := sx(sym(n), obj)
+	key := "emb:" + t
+	if !fc.ground[key] {
+		fc.ground[key] = true
+		fc.define(sAnd(sEq(sx(sym(n+"!inv"), t), obj), sImp(sNot(sEq(obj, "0")), sx("<", t, "0"))))
+	}
+	return t
 }
 
 func (fc *FnCtx) elemFn(et types.Type) string {
@@ -465,19 +477,28 @@ func (fc *FnCtx) elemFn(et types.Type) string {
 		fc.declareFun(n, "(Int "+is+") Int")
 		fc.declareFun(n+"!b", "(Int) Int")
 		fc.declareFun(n+"!i", "(Int) "+is)
-		fc.define(fmt.Sprintf("(forall ((b Int) (i %s)) (! (and (= (%s (%s b i)) b) (= (%s (%s b i)) i) (< (%s b i) 0)) :pattern ((%s b i))))",
-			is, sym(n+"!b"), sym(n), sym(n+"!i"), sym(n), sym(n), sym(n)))
 	}
 	return n
+}
+
+func (fc *FnCtx) elemRef(et types.Type, base, idx string) string {
+	n := fc.elemFn(et)
+	t := sx(sym(n), base, idx)
+	key := "elem:" + t
+	if !fc.ground[key] {
+		fc.ground[key] = true
+		fc.define(sAnd(sEq(sx(sym(n+"!b"), t), base), sEq(sx(sym(n+"!i"), t), idx), sx("<", t, "0")))
+	}
+	return t
 }
 
 // structRef turns an address of a struct-typed location into the struct's ref.
 func (fc *FnCtx) structRef(a *Addr, t types.Type) string {
 	switch a.Kind {
 	case aField:
-		return sx(sym(fc.embFn(a.ST, a.F)), a.Obj)
+		return fc.embRef(a.ST, a.F, a.Obj)
 	case aElem:
-		return sx(sym(fc.elemFn(t)), a.Obj, a.Idx)
+		return fc.elemRef(t, a.Obj, a.Idx)
 	case aCell:
 		return a.Obj
 	}
@@ -544,7 +565,7 @@ func (fc *FnCtx) load(st *State, a *Addr, t types.Type) Val {
 	case KArray:
 		// array value: represented by the ref of its storage
 		if a.Kind == aField {
-			return Val{T: t, S: sx(sym(fc.embFn(a.ST, a.F)), a.Obj)}
+			return Val{T: t, S: fc.embRef(a.ST, a.F, a.Obj)}
 		}
 		return Val{T: t, S: a.Obj}
 	}
@@ -657,7 +678,7 @@ func (fc *FnCtx) zeroStruct(st *State, ref string, t types.Type) *State {
 			st = fc.zeroStruct(st, fc.structRef(a, ft), ft)
 		case KArray:
 			et := ft.Underlying().(*types.Array).Elem()
-			st = fc.zeroRow(st, sx(sym(fc.embFn(t, i)), ref), et)
+			st = fc.zeroRow(st, fc.embRef(t, i, ref), et)
 		default:
 			st = fc.storeVal(st, a, ft, fc.zeroVal(ft))
 		}
